@@ -12,6 +12,17 @@ Formula trees (nested lists):
   ["presence"|"absence", which]         which = an int or a list of symbol indices
   ["only", f]                           tn.only: f, with the symbols f does not depend on forced to false
   ["round", f] ["round_tt", f]          intermediate recompression (semantically the identity)
+
+case = {"N", "f": tree, "g": tree (pairs only), "obs": subset of table|pred|relevant|pair, "rounded": bool, "tags"}.
+Unrounded formulas are compared exactly (lib.canon_dense), rounded ones to 1e-6; predicates and symbol lists exactly.
+
+Tags used by the known-findings matcher (all static properties of the formula except root_tucker):
+  one_partial        the formula contains tn.one restricted to a strict subset of the symbols
+  root_tucker        (set in run()) the implementation's tensor for f carries Tucker factors (only after tn.round)
+  inexact            recompression, or xor with N >= 2 (the scalar 2 of a+b-2ab is spread as 2^(1/N) over the cores)
+  syn_irrelevant     a symbol occurs in f but the truth table does not depend on it
+  inner_only_cancel  tn.only is applied inside f to an inexact operand with such a symbol
+  noise_risk         unrounded, xor, N >= 2 and rank bound >= 64 of the tensor whose norm a predicate thresholds
 """
 from lib import *
 
@@ -236,6 +247,13 @@ def syn_symbols(f, N):
     return out
 
 
+def inexact_cancel(f, N):
+    """inexact arithmetic (recompression, or the scalar 2 of xor for N >= 2) and a symbol that occurs in f although
+    the truth table of f does not depend on it: its difference slice is zero only up to rounding error"""
+    inexact = is_rounded(f) or (N >= 2 and has_node(f, lambda x: x[0] == "xor"))
+    return bool(inexact and (syn_symbols(f, N) - set(relevant_of(table(f, N)))))
+
+
 def add_rounds(f, rng, p=1.0, kinds=("round",)):
     """insert recompression after interior nodes (each with probability p)"""
     op = f[0]
@@ -339,7 +357,9 @@ class Prop:
             "N<=2 variables for implies/equiv/&/|/^ (plain and with rounding), seeded pairs (implied / rewritten / "
             "independent) for N=3,4; seeded trees of depth<=5 over N<=4 symbols with helper leaves and only() nodes, "
             "plain and with tn.round/tn.round_tt at random nodes; noisy contradictions/tautologies f^round(f). "
-            "Trees whose rank bound exceeds 300 are rejected. Non-trivial: the formula is neither a tautology nor a "
+            "Every formula gives two cases: (table, sum, tautology/contradiction/satisfiable) and (relevant, irrelevant, "
+            "only). Trees whose rank bound exceeds 300 (600 for the tensors built by binary predicates) are recompressed "
+            "at every node instead. Non-trivial: the formula is neither a tautology nor a "
             "contradiction, or the case is a pair; distinct = distinct (N, formula trees, observations).")
     TRUSTED = ["harness/props/c15.py: the truth-table evaluator table() (NumPy booleans over all 2^N assignments)",
                "tn.Tensor.torch() decompression (property C01) is used to observe formulas"]
@@ -374,7 +394,9 @@ class Prop:
                         # un-recompressed high-rank tensor with inexact cores: tn.norm of a numerically zero tensor
                         # (sqrt of a cancellation error) approaches the 1e-6 threshold of the predicates
                         noise_risk=bool(not rounded and N >= 2 and has_node(f, lambda x: x[0] == "xor") and
-                                        (pair_rank(f, g, N) if g is not None else est_rank(f, N) + 1) >= 128),
+                                        (pair_rank(f, g, N) if g is not None else est_rank(f, N) + 1) >= 64),
+                        # tn.only applied inside the formula to an operand of the same kind as in `syn_irrelevant`
+                        inner_only_cancel=has_node(f, lambda x: x[0] == "only" and inexact_cancel(x[1], N)),
                         root_tucker=False)   # set by run(): does the implementation's formula carry Tucker factors
             c = {"N": N, "f": f, "obs": list(obs), "rounded": rounded, "tags": tags}
             if g is not None:
